@@ -14,6 +14,7 @@ from ..xfer import FileConn, make_source, setup_pair, state_name, wait_until
 
 ID = 'C04'
 LEVEL = 'fault_enumeration'
+QUICK_SCALE = 1.5      # the quick tier was enlarged by this factor after MIN_OBS['quick'] was measured
 RULE = ("kind=pair: two real clients + scripted server on the simulated net; one download of a file of a boundary "
         "size; a fault plan cuts the file connection (RST / silent loss ending in ETIMEDOUT after 900 s / FIN) when the file position reaches K on "
         "attempts 1..3, or inside the 4-byte ticket / 8-byte offset, then faults stop; seeded segmentation, "
@@ -71,7 +72,7 @@ def cases(tier: str, seed: int) -> list[dict]:
     for at, rng_k in (('ticket', range(0, 5)), ('offset', range(0, 9))):
         for k in rng_k:
             add(kind='pair', size=8193, cuts=[{'at': at, 'K': k, 'mode': 'rst'}])
-    n_random = 60 if tier == 'quick' else 5000
+    n_random = 110 if tier == 'quick' else 5000
     for _ in range(n_random):
         size = rng.choice(SIZES[1:] + [rng.randint(2, 40000)])
         ncuts = rng.choice([1, 1, 2, 3])
@@ -80,7 +81,7 @@ def cases(tier: str, seed: int) -> list[dict]:
         add(kind='pair', size=size, cuts=cuts, randomize=True)
     # the local partial file changes between attempts (truncated by the user / another program) and
     # user pause + re-queue in mid-transfer: the resume offset must follow the file, not a counter
-    n_var = 40 if tier == 'quick' else 1500
+    n_var = 70 if tier == 'quick' else 1500
     for i in range(n_var):
         size = rng.choice([8193, 3 * 8192 + 5, 100000])
         k = rng.randint(1, size - 1)
@@ -88,7 +89,7 @@ def cases(tier: str, seed: int) -> list[dict]:
             add(kind='pair', size=size, cuts=[{'at': 'file', 'K': k, 'mode': 'rst'}], truncate=True)
         else:
             add(kind='pair', size=size, cuts=[], pause=True)
-    n_dis = 40 if tier == 'quick' else 1500
+    n_dis = 70 if tier == 'quick' else 1500
     for i in range(n_dis):
         add(kind='dishonest', i=i)
     if tier == 'thorough':
